@@ -341,6 +341,35 @@ def h_guards(ctx, cfg):
     return 1
 
 
+CROSSHAIR_CONTRACTS = '''
+from batchie.distance_calculation import get_lower_triangular_indices_chunk, lower_triangular_indices
+
+
+def _partition(n: int, k: int) -> bool:
+    """
+    pre: 0 <= n <= 5 and 1 <= k <= 12
+    post: _
+    """
+    allp = []
+    sizes = []
+    for c in range(k):
+        ch = get_lower_triangular_indices_chunk(n, c, k)
+        sizes.append(len(ch))
+        allp.extend(ch)
+    return allp == list(lower_triangular_indices(n)) and max(sizes) - min(sizes) <= 1
+'''
+
+
+def extra(tier, seed, deadline):
+    from .. import loader as _ld
+    if tier != "thorough" or _ld.CURRENT_PATCHES:
+        return {}
+    from ..crosshair_x import run_contracts
+    ch = run_contracts(CROSSHAIR_CONTRACTS)
+    inc = ["CrossHair cross-check disagrees (counterexample on the real function): %s" % c for c in ch["counterexamples"]]
+    return dict(inconclusive=inc, coverage=dict(crosshair_cross_check={k: v for k, v in ch.items() if k != "raw"}))
+
+
 def run(ctx, cfg):
     return {"arith": h_arith, "arith_pair": h_arith_pair, "pipeline": h_pipeline, "assemble": h_assemble,
             "incomplete": h_incomplete, "metric": h_metric, "guards": h_guards}[cfg["h"]](ctx, cfg)
